@@ -160,6 +160,40 @@ theorem multiPurge_WF (al : Nat → Bool) (x : Nat) :
     simp only [List.foldl_cons]
     exact multiPurge_WF al x keys _ _ (purge_WF al h x e.1 e.2 st)
 
+theorem foldl_purgeStep_fst_indep (al : Nat → Bool) (x name : Nat) :
+    ∀ (L : List Nat) (T : Tbl) (st st' : List Nat),
+      (L.foldl (purgeStep al x name) (T, st)).1 = (L.foldl (purgeStep al x name) (T, st')).1
+  | [], _, _, _ => rfl
+  | l :: L, T, st, st' => by
+    simp only [List.foldl_cons]
+    unfold purgeStep
+    by_cases ha : al l = true
+    · simp only [ha, if_true]
+      exact foldl_purgeStep_fst_indep al x name L _ _ _
+    · simp only [ha]
+      exact foldl_purgeStep_fst_indep al x name L _ _ _
+
+theorem purge_fst_indep (al : Nat → Bool) (T : Tbl) (x name : Nat) (list st st' : List Nat) :
+    (purge al T x name list st).1 = (purge al T x name list st').1 :=
+  foldl_purgeStep_fst_indep al x name _ _ _ _
+
+theorem multiPurge_fst_indep (al : Nat → Bool) (x : Nat) :
+    ∀ (keys : List (Nat × List Nat)) (T : Tbl) (st st' : List Nat),
+      (multiPurge al T x keys st).1 = (multiPurge al T x keys st').1
+  | [], _, _, _ => rfl
+  | e :: keys, T, st, st' => by
+    unfold multiPurge
+    simp only [List.foldl_cons]
+    have h1 := multiPurge_fst_indep al x keys (purge al T x e.1 e.2 st).1 (purge al T x e.1 e.2 st).2
+      (purge al T x e.1 e.2 st').2
+    unfold multiPurge at h1
+    rw [h1, purge_fst_indep al T x e.1 e.2 st st']
+
+theorem multiPurge_cons (al : Nat → Bool) (T : Tbl) (x : Nat) (e : Nat × List Nat)
+    (keys : List (Nat × List Nat)) (st : List Nat) :
+    multiPurge al T x (e :: keys) st =
+      multiPurge al (purge al T x e.1 e.2 st).1 x keys (purge al T x e.1 e.2 st).2 := rfl
+
 end Tbl
 
 /-! ### the mirror of the two tables -/
